@@ -1,0 +1,45 @@
+//go:build verif
+
+package transport
+
+// Contracts checked by /verif (contract-based deductive verification).
+// This file is comment-only; it is compiled only with -tags=verif.
+
+//@ import grpcutil "google.golang.org/grpc/internal/grpcutil"
+//@ import time "time"
+
+//@ spec func unitNanos(c byte) Z {
+//@   switch c {
+//@   case 'n': return 1
+//@   case 'u': return 1000
+//@   case 'm': return 1000000
+//@   case 'S': return 1000000000
+//@   case 'M': return 60000000000
+//@   case 'H': return 3600000000000
+//@   }
+//@   return 0
+//@ }
+
+// ---- C07: grpc-timeout decoding ------------------------------------------
+
+//@ func timeoutUnitToDuration
+//@   prop C07
+//@   nopanic
+//@   ensures ok == (unitNanos(byte(u)) != 0)
+//@   ensures implies(ok, Z(d) == unitNanos(byte(u)))
+
+//@ func decodeTimeout
+//@   prop C07
+//@   nopanic
+//@   ensures iff(result1 == nil, len(s) >= 2 && len(s) <= 9 && unitNanos(s[len(s)-1]) != 0 && strdigits(s[:len(s)-1]))
+//@   ensures implies(result1 == nil, result0 >= 0)
+//@   ensures implies(result1 == nil, Z(result0) == imin(parsedec(s[:len(s)-1]) * unitNanos(s[len(s)-1]), 9223372036854775807))
+
+//@ lemma timeoutRoundTrip(d time.Duration)
+//@   prop C07
+//@   requires d > 0
+//@   body e := grpcutil.EncodeDuration(d)
+//@        d2, err := decodeTimeout(e)
+//@   ensures err == nil
+//@   ensures d2 >= d
+//@   ensures Z(d2) - Z(d) < unitNanos(e[len(e)-1]) || d2 == 9223372036854775807
